@@ -201,7 +201,9 @@ PROPS["C06"] = dict(
               "Kust.C06.over_get", "Kust.C06.over_assoc", "Kust.C06.create_on_absent", "Kust.C06.merge_on_absent_fails",
               "Kust.C06.replace_on_absent_fails", "Kust.C06.create_on_present_fails", "Kust.C06.merge_on_present", "Kust.C06.replace_on_present", "Kust.C06.merge_on_present_bin", "Kust.C06.replace_on_present_bin",
               "Kust.C06.layer_fold", "Kust.C06.suffix_ignores_envelope", "Kust.C06.equal_content_equal_suffix",
-              "Kust.C06.subst_injective_on_hex", "Kust.C06.subst_expected", "Kust.C06.suffix_length"],
+              "Kust.C06.subst_injective_on_hex", "Kust.C06.subst_expected", "Kust.C06.suffix_length",
+              "Kust.C06.over_idem_get", "Kust.C06.over_nil_right", "Kust.C06.foldSpec_snoc_merge", "Kust.C06.foldSpec_snoc_replace",
+              "Kust.C06.foldSpec_frame"],
     components=["gen.hash", "gen.literals", "gen.absorb", "gen.sources"],
     oracle=True,
     n_corr={"quick": 2000, "thorough": 30000}, n_oracle={"quick": 500, "thorough": 6000},
